@@ -46,7 +46,7 @@ PROPS = {
         not_covered='parse_decimal_exactly/parse_rational_exactly, int(str(n)), hex/base64/utf8/gzip/json codecs, chr/ord, repr',
     ),
     'C14': dict(
-        units=['index', 'nint', 'nnum', 'nnumcmp', 'builtins', 'istype', 'rangeu'],
+        units=['index', 'nint', 'nnum', 'nnumcmp', 'builtins', 'istype', 'rangeu', 'streamdef', 'seqlib', 'radix'],
         not_covered='every function not under contract (the other ~340 builtins, evaluate, assign_all, set_index, streams other than '
                     'Range/WrappedVec, the parser); try/catch containment and "interpreter still usable" are whole-program claims',
     ),
@@ -56,14 +56,14 @@ PROPS = {
     ),
     'C13': dict(
         units=['seqlib'],
-        not_covered='everything except the seven helpers under contract: the multi!/multimulti! kind dispatch, sorted/sorted_by/sorted_on (std sort_by + '
+        not_covered='everything except the six helpers under contract: the multi!/multimulti! kind dispatch, sorted/sorted_by/sorted_on (std sort_by + '
                     'closures), uniqued/classified_with (std HashSet/HashMap), windowed (VecDeque::iter().cloned()), grouped_by, Zip/ZipLongest/'
                     'CartesianProduct/Fold/Scan/Merge/Count/Extremum, SeqAndMappedFoldBuiltin, the one-liners registered in initialize, and the '
                     'combinatorial streams; user callbacks are an uninterpreted function of (callee, arguments), effects not modelled',
     ),
     'C10': dict(
-        units=['index'], kani='thorough',
-        not_covered='index/slice_seq/set_index and the take/drop/... builtins that call these kernels; stream indexing by iteration',
+        units=['index', 'streamdef'], kani='thorough',
+        not_covered='set_index, the take/drop/... builtins that call these kernels, Stream::pythonic_slice, overrides of the stream methods other than Cycle\'s',
     ),
 }
 
@@ -90,9 +90,14 @@ TEXT = {
     'C09': ('Verus proves the Eq/Hash agreement that HashMap needs for numeric keys: the words a number hashes to are a '
             'function of its exact value, and a lemma shows key-equal numbers (== or both NaN) write identical words.'),
     'C10': ('Verus proves, for every isize index and every slice length, that the index/slice kernels of core.rs compute '
-            'Python\'s index/clamp/slice functions and cannot overflow or panic.'),
+            'Python\'s index/clamp/slice functions and cannot overflow or panic; that eval.rs::index (the interpreter\'s s[i]) returns '
+            'the element at the Python index on lists, bytes, vectors and strings (by UTF-8 byte) and raises an index error exactly when '
+            'Python would; that eval.rs::slice_seq returns the Python subrange element for element; and that the default '
+            'Stream::pythonic_index_isize returns the item iteration reaches (index error past the end; negative indices from the end of '
+            'the forced stream).'),
     'C11': ('Verus proves for integer ranges with any step sign and any magnitude that the emptiness test, next/peek and the '
-            'closed-form len() agree with the iteration that next() performs.'),
+            'closed-form len() agree with the iteration that next() performs; the same for WrappedVec and Cycle; and, for an arbitrary '
+            'lawful finite stream, that the default methods len / pythonic_index_isize / reversed agree with iteration.'),
     'C16': ('Verus proves that the Display/LowerHex/UpperHex/Binary/Octal impls of NInt (and the integer arm of NNum) write the '
             'sign-magnitude rendering of the abstract value, so the text cannot depend on the representation (assuming std\'s and '
             'num-bigint\'s formatting behaviour); and that the str_radix / int_radix closures of lib.rs write and read positional '
@@ -103,7 +108,7 @@ TEXT = {
             'stated preconditions: no arithmetic overflow, no division by zero, no out-of-range cast or index, no reachable '
             'panic!/todo!/unreachable!/expect, and every precondition that encodes a dependency panic (BigInt division by '
             'zero, reciprocal of zero, num-rational pow) is discharged at the builtin closures that call it.'),
-    'C13': ('Verus proves seven of the kind-independent sequence helpers of lib.rs against their one-line definitions, for every input length '
+    'C13': ('Verus proves six of the kind-independent sequence helpers of lib.rs against their one-line definitions, for every input length '
             'and every element type (vstd iterator model): reversed = reverse; prefixes / reversed_prefixes = one (reversed) prefix per length in '
             'order; grouped = consecutive chunks of n with group\' refusing a leftover; take_while_inner = the longest prefix whose elements '
             'all pass, the next element having been tested and failed; filtered = exactly the elements whose test differs from neg, order '
